@@ -57,7 +57,8 @@ PROPS = {
         'assumptions': [COLL_STD, CLOCK, 'identical "up to the clock anchor": proved per anchor value'],
     },
     'C18': {
-        'verus': [('coll', ['amend_span', 'amend_local_span'])],
+        'verus': [('coll', ['amend_span', 'amend_local_span']),
+                  ('local', ['RawSpan::begin_with', 'RawSpan::end_with', 'SpanQueue::start_span', 'SpanQueue::finish_span', 'SpanQueue::add_event'])],
         'kani': [],
         'assumptions': [CLOCK, NOW, 'NOT decided: "begin time lies inside the wall-clock window of the run" and interval nesting need a monotone clock (TSC + f64 conversion are trusted)'],
     },
@@ -107,6 +108,18 @@ PROPS = {
         'verus': [('local', ['SpanLine::add_properties', 'SpanLine::with_properties', 'LocalSpanStack::add_properties', 'LocalSpanStack::with_properties', 'LocalSpanStack::enter_span', 'LocalSpanStack::add_event'])],
         'kani': ['disabled_build_is_inert', 'noop_span_never_calls_closures', 'root_without_reporter_is_noop', 'no_local_parent_is_inert'],
         'assumptions': [KANI_ENV, '"no thread": set_reporter is the only spawn site besides flush and both are cfg(feature = "enable") (syntactic)'],
+    },
+    'C13': {
+        'verus': [],
+        'kani': ['future_in_span_final_poll', 'future_in_span_pending_poll', 'local_parent_guard_scope'],
+        'assumptions': [KANI_ENV, 'per-call contract: each poll is verified for an arbitrary adapter state (span present), which is what the induction over poll sequences needs; thread migration: nothing thread-specific is stored in the adapter (type level)',
+                        'NOT covered: enter_on_poll (recording a LocalSpan exhausts CBMC memory; its body is two lines over LocalSpan::enter_with_local_parent, whose data structure is proved in unit local)'],
+    },
+    'C14': {
+        'verus': [],
+        'kani': ['stream_in_span_last_call', 'stream_in_span_item_call', 'sink_in_span_close', 'sink_in_span_send', 'local_parent_guard_scope'],
+        'assumptions': [KANI_ENV, 'K7: fastrace-futures/src/lib.rs is compiled inside the fastrace crate with the Stream/Sink traits re-declared (futures 0.3 signatures) instead of linking futures-core/futures-sink',
+                        'per-call contract, complete per call; poll_ready / poll_flush have the same two-line body as start_send (guard + delegate) and are covered by the start_send harness only by similarity -- listed as not separately verified'],
     },
     'C04': {
         'verus': [('spsc', ['Sender::force_send', 'Sender::send', 'bounded', 'Receiver::try_recv']), ('coll', [H])],
